@@ -50,7 +50,7 @@ class C03(Check):
             gen = docs.document(reg, kinds=['single'] * 5 + ['batch'] * 5 + ['mangled', 'raw', 'value'],
                                 flavours=['valid'] * 10 + ['unknown-method'] * 2 + ['deviant', 'deviant', 'non-object'])
             return st.builds(
-                lambda text, beh, mbs, codec: {'dispatcher': kind, 'plain': plain, 'max_batch_size': batch_limit(text, mbs), 'behaviours': beh, 'text': text, 'codec': codec,
+                lambda text, beh, mbs, codec: {'dispatcher': kind, 'plain': plain, 'sequential': kind == 'async' and (len(beh) + len(codec)) % 3 == 0, 'max_batch_size': batch_limit(text, mbs), 'behaviours': beh, 'text': text, 'codec': codec,
                                            'logging': 'debug' if (len(beh) + (mbs is None)) % 3 == 0 else 'off'},
                 gen, stdreg.behaviours(True), st.sampled_from(BATCH_LIMITS), st.sampled_from(CODEC_CHOICES),
             )
@@ -86,7 +86,7 @@ class C03(Check):
                 if exc in ('ValueError', 'ZzUnprintable', 'KeyError'):
                     # the same with the library's loggers at DEBUG (what is logged must not change what is answered)
                     out.append({**base, 'logging': 'debug', 'behaviours': beh, 'text': t([{'jsonrpc': '2.0', 'id': 1, 'method': 'boom'}, {'jsonrpc': '2.0', 'method': 'boom2'}])})
-        return out
+        return out + stdreg.exception_corpus('MARKER-c03-zq')
 
     def run_case(self, spec: Any) -> Outcome:
         obs = sh.observe(spec)
